@@ -22,7 +22,7 @@ func init() {
 	Registry["C01"] = Check{Level: "exploration", Fn: runC01}
 }
 
-var c01PKKinds = []string{"int", "autoinc", "composite", "varchar", "composite3", "composite_txt"}
+var c01PKKinds = []string{"int", "autoinc", "composite", "varchar", "composite3", "composite_txt", "varchar_colon"}
 
 func c01GenCase(r *vc.Rand, idx int, kinds []string, prefix string) *atCase {
 	c := &atCase{Name: fmt.Sprintf("%s%04d", prefix, idx), Feat: map[string]string{}}
